@@ -589,6 +589,28 @@ theorem holds_view (v : JVal) (hw : wf v = true) (hs : small v) : Holds (viewOf 
   | obj ms => simp only [viewOf, he, Option.getD_some, fuelOf]; omega
   | _ => simp [Binn.depth, viewOf, fuelOf]
 
+/-- `jbl_from_buf_keep` over the bytes the writer produced for a document: the holder of exactly these bytes -/
+theorem ofBuf_enc (v : JVal) (bs : Bytes) (hc : isContainer v = true) (he : enc v = some bs)
+    (hs : bs.length + 9 < 2 ^ 31) : ofBuf bs = some (.cont bs) := by
+  cases v with
+  | arr xs =>
+    simp only [enc, Option.map_eq_some_iff] at he
+    obtain ⟨body, hb, rfl⟩ := he
+    have hl2 := encList_length xs body hb
+    have hcl := container_length Gen.Binn.BINN_LIST xs.length body
+    have hp := parseHeader_container Gen.Binn.BINN_LIST xs.length body [] (Or.inl rfl) (by omega) (by omega)
+    simp only [List.append_nil] at hp
+    simp [ofBuf, hp]
+  | obj ms =>
+    simp only [enc, Option.map_eq_some_iff] at he
+    obtain ⟨body, hb, rfl⟩ := he
+    have hl2 := encMembers_length [] ms body hb
+    have hcl := container_length Gen.Binn.BINN_OBJECT ms.length body
+    have hp := parseHeader_container Gen.Binn.BINN_OBJECT ms.length body [] (Or.inr rfl) (by omega) (by omega)
+    simp only [List.append_nil] at hp
+    simp [ofBuf, hp]
+  | _ => simp [isContainer] at hc
+
 theorem swapIn_wf (h : BVal) (d : JVal) (hw : wf d = true) : swapIn h d = (viewOf d, .ok) := by
   simp [swapIn, fromNode_eq_viewOf d hw]
 
